@@ -181,6 +181,40 @@ func ops() []opdef {
 			sc := lime.NewServerChannel(stp, 1, lib.ServerNode, "sid")
 			return func(ctx context.Context) error { return lib.ServerEstablishGuest(ctx, sc) }
 		})
+		// the client presents its new session and then goes silent: the server waits in the
+		// authentication phase (no negotiation to do) or for the negotiation choice (tcp, tls on offer)
+		for _, stage := range []string{"authentication", "negotiation"} {
+			stage := stage
+			if stage == "negotiation" && kind != "tcp" {
+				continue
+			}
+			add(kind+"/server.EstablishSession/client-silent-in-"+stage, poll, func(x *harness.X) func(context.Context) error {
+				buf := 1
+				var cfg *lime.TCPConfig
+				if kind == "tcp" {
+					buf = 64 << 10
+					cfg = &lime.TCPConfig{TLSConfig: lib.TLSServerConfig()}
+				}
+				ct, stp, _, _ := lib.Transports(kind, buf, cfg)
+				sc := lime.NewServerChannel(stp, 1, lib.ServerNode, "sid")
+				go func() {
+					_ = ct.Send(context.Background(), &lime.Session{State: lime.SessionStateNew})
+					for {
+						if _, err := ct.Receive(context.Background()); err != nil {
+							return
+						}
+					}
+				}()
+				enc := []lime.SessionEncryption{lime.SessionEncryptionNone}
+				if stage == "negotiation" {
+					enc = append(enc, lime.SessionEncryptionTLS)
+				}
+				return func(ctx context.Context) error {
+					return sc.EstablishSession(ctx, []lime.SessionCompression{lime.SessionCompressionNone}, enc,
+						[]lime.AuthenticationScheme{lime.AuthenticationSchemeGuest}, lib.GuestOK, lib.RegisterSame)
+				}
+			})
+		}
 		add(kind+"/client.EstablishSession/server-silent", poll, func(x *harness.X) func(context.Context) error {
 			buf := 1
 			if kind == "tcp" {
